@@ -4,5 +4,7 @@ CONSTANTS
   Horizons <- TrNone
   ChangeTo <- TrNone
   MaxCh = 0
+  TieBudget = 1000000
+  ChangeBy = 0
 INVARIANTS Consumed TypeOKT StampIsNow StateIsCurrent NoTimeLost Monotone Paired ImuRate MagRate ImuPeriodExact MagPeriodExact NeverFaster Counts LoopPeriod
 CHECK_DEADLOCK FALSE
